@@ -168,6 +168,8 @@ def run(ctx):
             if g is None:
                 r.fail(pm, n.ast, norm(n.ast), "the separator flag is cleared somewhere else than at the '--' token")
 
+        after_separator_total(ctx, r, pm, cfg, flag, opt_calls)
+
     # ---------------------------------------------------------------- R4
     r = ctx.rule("C01-R4", "POLARITY", "multi-values keep command-line order: stores append / assign in place, "
                  "iteration is forward, nothing is reversed or sorted", reference=8)
@@ -191,16 +193,7 @@ def run(ctx):
                 bad = "negative-step slice"
             if bad:
                 r.fail(f, n, norm(n), "%s perturbs the order of collected values (%s)" % (f.short, bad))
-    # value lookahead puts a rejected token back at the front
-    for f in parser.methods.values():
-        for n in walk_no_nested(f.node):
-            if isinstance(n, ast.Call) and isinstance(n.func, ast.Attribute) and n.func.attr == "insert" and isinstance(n.func.value, ast.Name) and n.func.value.id == "tokens":
-                if n.args and isinstance(n.args[0], ast.Constant) and n.args[0].value == 0:
-                    r.ok("%s: lookahead token pushed back at the front" % f.short)
-                else:
-                    r.fail(f, n, norm(n), "a looked-ahead token is pushed back somewhere else than the front of the token list")
-            elif isinstance(n, ast.Call) and isinstance(n.func, ast.Attribute) and n.func.attr in ("append", "extend") and isinstance(n.func.value, ast.Name) and n.func.value.id == "tokens":
-                r.fail(f, n, norm(n), "a token is put back at the end of the pending tokens: it would be parsed after everything that followed it")
+    pushback_rule(ctx, r, parser)
 
     # ---------------------------------------------------------------- R5
     r = ctx.rule("C01-R5", "SIBLING", "option()/options() and argument()/arguments() compute the same value for a "
@@ -255,7 +248,148 @@ def run(ctx):
                 else:
                     r.fail(m, sub, norm(sub) + " unguarded", "Args.%s reads %s without the membership test on the same key" % (name, norm(sub)))
     ctx.require(n_reads >= 2, "no reads of the value maps found in Args")
+
+    # ---------------------------------------------------------------- R8
+    r = ctx.rule("C01-R8", "SLICE", "the value attached with '=' is everything after the first '=' (a value may itself contain '='): "
+                 "split at the first occurrence only, and take the open-ended remainder", reference=2)
+    for m in sorted(parser.methods.values(), key=lambda f: f.name):
+        posvars = {}
+        for n in walk_no_nested(m.node):
+            if isinstance(n, ast.Call) and isinstance(n.func, ast.Attribute) and n.args and isinstance(n.args[0], ast.Constant) and n.args[0].value == "=":
+                a = n.func.attr
+                maxsplit = (len(n.args) > 1 and isinstance(n.args[1], ast.Constant) and n.args[1].value == 1) or any(k.arg == "maxsplit" and isinstance(k.value, ast.Constant) and k.value.value == 1 for k in n.keywords)
+                if a in ("rfind", "rindex", "rsplit", "rpartition"):
+                    r.fail(m, n, norm(n), "%s splits at the LAST '=': for --opt=a=b the option name becomes 'opt=a'" % m.short)
+                elif a == "split" and not maxsplit:
+                    r.fail(m, n, norm(n), "%s splits at every '=': for --opt=a=b only 'a' (or an unpacking error) is left of the value 'a=b'" % m.short)
+                elif a in ("split", "partition"):
+                    r.ok("%s: %s" % (m.short, norm(n)))
+                elif a in ("find", "index"):
+                    par = getattr(n, "_parent", None)
+                    if isinstance(par, ast.Assign) and isinstance(par.targets[0], ast.Name):
+                        posvars[par.targets[0].id] = n
+        for pv in posvars:
+            for n in walk_no_nested(m.node):
+                if isinstance(n, ast.Subscript) and isinstance(n.slice, ast.Slice) and n.slice.lower is not None and pv in q.names_in(n.slice.lower):
+                    lo = n.slice.lower
+                    plus1 = isinstance(lo, ast.BinOp) and isinstance(lo.op, ast.Add) and {norm(lo.left), norm(lo.right)} == {pv, "1"}
+                    if plus1 and n.slice.upper is None and n.slice.step is None:
+                        r.ok("%s: value = %s" % (m.short, norm(n)))
+                    else:
+                        r.fail(m, n, norm(n), "%s: the attached value is not the open-ended remainder after the first '=' (%s)" % (m.short, norm(n)))
+                elif isinstance(n, ast.Subscript) and isinstance(n.slice, ast.Slice) and n.slice.upper is not None and pv in q.names_in(n.slice.upper):
+                    if n.slice.lower is None and norm(n.slice.upper) == pv:
+                        r.ok("%s: name = %s" % (m.short, norm(n)))
+                    else:
+                        r.fail(m, n, norm(n), "%s: the option name is not the text before the first '=' (%s)" % (m.short, norm(n)))
+
+    # ---------------------------------------------------------------- R9
+    r = ctx.rule("C01-R9", "READONLY", "reading values never sets any: the accessors of Args (everything but the set_* "
+                 "methods and the constructor) do not mutate the value maps, at any alias depth - 'nothing else set' "
+                 "must survive a call of options()/arguments()", reference=2)
+    from ..effects import root as _root, is_fresh as _fresh, show as _show, path_fields as _pf
+    eff = ctx.effects
+    for name, m in sorted(args.methods.items()):
+        if name.startswith("set_") or name == "__init__":
+            continue
+        evs = []
+        for ev in eff.events_in(m):
+            t = ev.token
+            if _root(t) != ("p", "self") or _fresh(t):
+                continue
+            flds = _pf(t)
+            top = flds[-1] if flds else ev.kind.rsplit(":", 1)[-1]
+            if top in (OPT_MAP, ARG_MAP):
+                evs.append((top, ev))
+        if evs:
+            for top, ev in evs:
+                o = ev.origin_event()
+                r.fail(o.fi, o.node, "self.%s via %s" % (top, norm(o.node)), "Args.%s modifies the value map %s in place (%s): after one read with defaults, options never "
+                       "given are reported as set" % (name, _show(ev.token), ev.chain()), chain=ev.chain())
+        else:
+            r.ok("Args.%s: value maps untouched (deep)" % name)
+
+    # ---------------------------------------------------------------- R10
+    from .c05 import scratch_rule
+
+    r = ctx.rule("C01-R10", "RESET", "'nothing else set': what an earlier parse collected (also one that ended in an error) cannot show up "
+                 "in this result - the parser's scratch attributes are re-initialised before their first use (same rule as C05-R1)", reference=2)
+    scratch_rule(ctx, r, parser.methods["parse"])
     return ctx.results
+
+
+def pushback_rule(ctx, r, parser):
+    """POLARITY rule shared with C09: a looked-ahead token that is not a value goes back to the FRONT of the pending tokens."""
+    # value lookahead puts a rejected token back at the front
+    for f in parser.methods.values():
+        for n in walk_no_nested(f.node):
+            if isinstance(n, ast.Call) and isinstance(n.func, ast.Attribute) and n.func.attr == "insert" and isinstance(n.func.value, ast.Name) and n.func.value.id == "tokens":
+                if n.args and isinstance(n.args[0], ast.Constant) and n.args[0].value == 0:
+                    r.ok("%s: lookahead token pushed back at the front" % f.short)
+                else:
+                    r.fail(f, n, norm(n), "a looked-ahead token is pushed back somewhere else than the front of the token list")
+            elif isinstance(n, ast.Call) and isinstance(n.func, ast.Attribute) and n.func.attr in ("append", "extend") and isinstance(n.func.value, ast.Name) and n.func.value.id == "tokens":
+                r.fail(f, n, norm(n), "a token is put back at the end of the pending tokens: it would be parsed after everything that followed it")
+
+
+def separator_facts(ctx):
+    """(_parse FuncInfo, cfg, separator flag name or None, option-parsing calls)."""
+    parser = ctx.cls("clikit.args.default_args_parser.DefaultArgsParser")
+    pm = parser.methods.get("_parse")
+    ctx.require(pm is not None, "DefaultArgsParser._parse missing")
+    cfg = ctx.cfg(pm)
+    opt_calls = [c for c in q.calls(pm) if isinstance(c.func, ast.Attribute) and "option" in c.func.attr and c.func.attr.startswith("_parse")]
+    flag = None
+    for f in walk_no_nested(pm.node):
+        if isinstance(f, ast.Assign) and isinstance(f.value, ast.Constant) and f.value.value is True and isinstance(f.targets[0], ast.Name):
+            nm = f.targets[0].id
+            if any(isinstance(n, ast.Assign) and isinstance(n.targets[0], ast.Name) and n.targets[0].id == nm and isinstance(n.value, ast.Constant) and n.value.value is False for n in walk_no_nested(pm.node)):
+                flag = nm
+    return pm, cfg, flag, opt_calls
+
+
+def after_separator_total(ctx, r, pm, cfg, flag, opt_calls):
+    """Shared with C02: with the separator flag cleared every drawn token reaches the positional parse."""
+    # with the flag cleared every token drawn is handed to the positional parse: no path from the draw back to
+    # the draw (or to the end of the loop) that avoids it, once the edges that need the flag set are removed
+    draws = [n for n in cfg.nodes if n.kind == "stmt" and isinstance(n.ast, ast.Assign) and isinstance(n.ast.value, ast.Call)
+             and ((isinstance(n.ast.value.func, ast.Attribute) and n.ast.value.func.attr == "pop") or (isinstance(n.ast.value.func, ast.Name) and n.ast.value.func.id == "next"))
+             and cfg.in_loop(n.id, exc=True)]
+    draws += [n for n in cfg.nodes if n.kind == "for"]
+    tokvars = set()
+    for d in draws:
+        tg = d.ast.target if d.kind == "for" else d.ast.targets[0]
+        if isinstance(tg, ast.Name):
+            tokvars.add(tg.id)
+    pos_calls = [c for c in q.calls(pm) if c not in opt_calls and isinstance(c.func, ast.Attribute) and isinstance(c.func.value, ast.Name) and c.func.value.id == "self"
+                 and c.args and isinstance(c.args[0], ast.Name) and c.args[0].id in tokvars]
+    if draws and pos_calls:
+        blocked = set()
+        for c in cfg.conds():
+            e = c.ast
+            if isinstance(e, ast.Name) and e.id == flag and cfg.true_of(c) is not None:
+                blocked.add(cfg.true_of(c).id)
+            elif isinstance(e, ast.UnaryOp) and isinstance(e.op, ast.Not) and isinstance(e.operand, ast.Name) and e.operand.id == flag and cfg.false_of(c) is not None:
+                blocked.add(cfg.false_of(c).id)
+        pos_nodes = {n.id for c in pos_calls for n in cfg.nodes_of(c)}
+        for d in draws:
+            if d.kind == "for":
+                starts = [s for s in cfg.succs(d.id) if cfg.nodes[s].kind == "loop_body"]
+            else:
+                starts = cfg.succs(d.id)
+            seen = cfg.reach(starts, blocked=blocked | pos_nodes)
+            if d.id in seen and not (set(starts) & pos_nodes):
+                # name the construct through which a token escapes
+                via = [cfg.nodes[x] for x in sorted(seen) if cfg.nodes[x].kind == "stmt" and d.id in cfg.reach([x], blocked=blocked | pos_nodes) and x != d.id]
+                what = norm(via[0].ast) if via else "fall-through"
+                r.fail(pm, via[0].ast if via else d.ast, "after-separator token not positional via " + what,
+                       "with the separator flag cleared a drawn token can be consumed without reaching the positional parse (through `%s`): "
+                       "a token after '--' (a second '--', say) is dropped or treated specially instead of being stored as a value" % what)
+            else:
+                r.ok("%s: after '--' every drawn token reaches %s" % (pm.short, ", ".join(sorted({norm(c.func) for c in pos_calls}))))
+    else:
+        r.note("no token draw / positional call recognised in _parse: after-separator totality not evaluated")
+
 
 
 def sentinel_loops(ctx, r, funcs):
